@@ -27,7 +27,7 @@ from vf.props.common import harness_error, inconclusive, proved, violation
 ID = "C19"
 LEVEL = "model_checking"
 ITEM_BUDGET_S = {"quick": 400, "thorough": 1500}
-QT = {"quick": 10000, "thorough": 60000}
+QT = {"quick": 10000, "thorough": 30000}
 _TIER = "quick"
 BIG = 1e16
 PATHS_SEEN = set()
@@ -68,6 +68,9 @@ def recipes(tier):
         ("norm", ("vbin", "-", v, ("vec", "w", n)), 2), ("bin", "*", ("norm", v, 2), X), ("bin", "/", X, ("norm", v, 2)),
         ("vsum", ("vrbin", "/", ("sc", 1.0), v)), ("dot", v, v), ("vsum", v), ("lincomb", [1.0, 2.0, 3.0][:n], v),
         ("bin", "*", ("num", 2.0), ("dot", v, v)), ("bin", "+", X, Y), ("bin", "*", X, X), ("fro", ("mat", "A", 2, 2)), ("un", "exp", ("bin", "/", ("num", 1.0), X)),
+        # a singular term next to regular ones in OTHER variables (their entries must stay what they are)
+        ("bin", "+", ("bin", "/", Y, X), ("bin", "*", ("num", 3.0), K.Z)), ("bin", "+", ("un", "log", X), ("bin", "*", Y, Y)),
+        ("bin", "-", ("bin", "*", ("num", 2.0), K.Z), ("bin", "/", ("num", 1.0), ("bin", "*", X, Y))),
     ]
     return vec, gen
 
@@ -124,14 +127,26 @@ def observe(recipe, order, val, which):
     if general:
         e = BinaryOp(e, Constant(0.0), "+")
     kind = which.split("-")[0]
-    with RawTap() as tap:
-        if kind == "gradient":
-            f = C.compile_gradient(e, V)
-        elif kind == "jacobian":
-            f = A.compile_jacobian([e], V)
-        else:
-            f = A.compile_hessian(e, V)
-        out = f(x)
+    old_th = None
+    if which.endswith("-deep"):
+        # the deep-tree (iterative) differentiation / compilation algorithms, forced from outside
+        from vf.props import c15
+        from vf.engine import npshim
+        old_th = c15.set_thresholds(0)
+        npshim.clear_optyx_caches()
+    try:
+        with RawTap() as tap:
+            if kind == "gradient":
+                f = C.compile_gradient(e, V)
+            elif kind == "jacobian":
+                f = A.compile_jacobian([e], V)
+            else:
+                f = A.compile_hessian(e, V)
+            out = f(x)
+    finally:
+        if old_th is not None:
+            c15.restore_thresholds(old_th)
+            npshim.clear_optyx_caches()
     return np.asarray(out, dtype=object), tap.raw, f.__name__
 
 
@@ -156,7 +171,7 @@ def check_recipe(recipe, vectorised, planted=False):
         for kind in kinds:
             if kind == "hessian" and len(order) > 3:
                 continue
-            whichs = [kind] + ([kind + "-general"] if vectorised else [])
+            whichs = [kind] + ([kind + "-general"] if vectorised else [kind + "-deep"])
             outs = {}
             for which in whichs:
                 for dec, labels, pc, got in K.explore(lambda: _safe(recipe, order, val, which), max_paths=400):
@@ -196,10 +211,11 @@ def check_recipe(recipe, vectorised, planted=False):
                             claims.append(ot.v == exp)
                         res.append(K.decide(claims, pc, [], f"{what} via {fname}: finite entries unchanged, NaN->0, +-inf->+-1e16", f"C19|{kind}|{fname}|sanitise-contract|{shp}", dict(payload, fname=fname), allv, QT[_TIER]))
                     outs.setdefault(which, []).append((pc, flat, fname))
-            # V: vectorised == general (pairwise over the explored paths)
-            if vectorised and len(outs) == 2:
+            # V: vectorised == general, D: recursive == deep-tree algorithms (pairwise over the explored paths)
+            other = kind + ("-general" if vectorised else "-deep")
+            if len(outs) == 2:
                 for pc1, f1, n1 in outs[kind]:
-                    for pc2, f2, n2 in outs[kind + "-general"]:
+                    for pc2, f2, n2 in outs[other]:
                         if len(f1) != len(f2):
                             res.append(violation(f"C19|{kind}|shape|{shp}", f"{kind}: vectorised and general shapes differ", dict(kind="raises", recipe=K.enc(recipe), order=order, which=kind)))
                             continue
@@ -208,8 +224,8 @@ def check_recipe(recipe, vectorised, planted=False):
                             a = a if isinstance(a, XReal) else XReal.lift(a)
                             b = b if isinstance(b, XReal) else XReal.lift(b)
                             claims.append(a.v == b.v)
-                        res.append(K.decide(claims, list(pc1) + list(pc2), [], f"{kind} {show(recipe)[:60]} V={order}: {n1} == {n2} entrywise (incl. singular points)",
-                                            f"C19|{kind}|{n1}|differs-from-general|{shp}", dict(kind="vec", recipe=K.enc(recipe), order=order, which=kind, fname=n1), allv, QT[_TIER]))
+                        res.append(K.decide(claims, list(pc1) + list(pc2), [], f"{kind} {show(recipe)[:60]} V={order}: {n1} == {n2}{'' if vectorised else ' [deep-tree algorithms]'} entrywise (incl. singular points)",
+                                            f"C19|{kind}|{n1}|differs-from-{'general' if vectorised else 'deep'}|{shp}", dict(kind="vec", recipe=K.enc(recipe), order=order, which=kind, other=other, fname=n1), allv, QT[_TIER]))
     return res
 
 
@@ -344,9 +360,10 @@ def replay(payload):
                     if not np.allclose(exp, o.reshape(-1), rtol=1e-12, atol=0):
                         return True, f"{which} via {fname}: raw {r.tolist()} sanitised to {o.reshape(-1).tolist()}, expected {exp.tolist()} at x={pt}"
             if payload["kind"] == "vec":
-                g2 = _safe(recipe, order, pt, which + "-general")
+                other = payload.get("other") or (which + "-general")
+                g2 = _safe(recipe, order, pt, other)
                 if not isinstance(g2, Exception):
                     o2 = np.asarray(g2[0], dtype=float)
                     if o2.shape == o.shape and not np.allclose(o, o2, rtol=1e-9, atol=1e-12, equal_nan=True):
-                        return True, f"{which}: vectorised {fname} gives {o.tolist()} but the general path gives {o2.tolist()} at x={pt}"
+                        return True, f"{which}: {fname} gives {o.tolist()} but the {'deep-tree algorithms give' if other.endswith('-deep') else 'general path gives'} {o2.tolist()} at x={pt}"
     return False, "no difference reproduced"
